@@ -317,7 +317,7 @@ theorem validatePhase_decimal (PP : Utv.Py.Prims) (pre post : List (String × Py
     have hc0 : c0 = 0 ∧ pv = .dec d := by
       simp only [toPy] at hpv
       split at hpv
-      · rename_i hc; simp at hc hpv; exact ⟨hc, hpv.symm⟩
+      · rename_i hc; simp at hc hpv; exact ⟨hc.1, hpv.symm⟩
       · simp at hpv
     obtain ⟨rfl, rfl⟩ := hc0
     split at h
@@ -360,7 +360,7 @@ theorem validatePhase_decimal (PP : Utv.Py.Prims) (pre post : List (String × Py
           subst h
           refine ⟨⟨_, rfl⟩, ?_⟩
           have htp : toPy (V.dec 0 (.fin s (c * 10 ^ (e + k).toNat) (-k))) = some (padDec s c e k) := by
-            simp [toPy, padDec]
+            simp [toPy, padDec, isSNaN]
           intro cv hcv
           simp only [List.mem_append, List.mem_cons] at hcv
           rcases hcv with hcv | rfl | hcv
